@@ -40,7 +40,7 @@ import (
 	"verif/wsx"
 )
 
-const negotiationRule = " Negotiation x peer behaviour: (raw client) a hand-written client offers each of the Sec-WebSocket-Extensions offers {none, permessage-deflate alone, +client_no_context_takeover, +server_no_context_takeover, both, +client_max_window_bits (no value / =15), +server_max_window_bits=10/15 (token and quoted), two offers in one header, two header lines, unknown parameter, other extension first, other extension only, extra white space and tabs, mixed case, lower-case header name} to Upgrader.Upgrade with EnableCompression on and off x buffer sizes {0 (hijacked buffers), 256} (thorough: also 125, 4096) x all client frames present before the first read / one message at a time; the response must be 101 with the RFC 6455 accept key and an extension list that the independent RFC 7692 model accepts for that offer (only offered extensions, one permessage-deflate element, defined parameters once with valid values, client_max_window_bits only when offered); the client then sends every script of depth 1..3 (thorough: 1..4) over {compressed 75 B, compressed 5000 B, compressed 600 B in 3 fragments, uncompressed 75 B, compressed empty} (thorough: also compressed 40000 B) with one shared body so that later messages back-reference earlier ones, compressing WITH context takeover exactly when the response lacks client_no_context_takeover (flate level -1; thorough also 1 and 9), and the server Conn must return exactly these (type, payload) and echo them on a wire that parses and inflates under the server's negotiated context mode. (raw server) a hand-written server answers Dialer.Dial (EnableCompression off: no extension; on: {no extension, both parameters in both orders, without spaces, with extra spaces/tabs, lower-case header name, +server_max_window_bits=15, only server_no_context_takeover, only client_no_context_takeover, no parameter}); the Dialer's request must be a valid RFC 6455 handshake whose offer is valid under RFC 7692; Dial must accept the first six forms; wherever Dial accepts, the server sends every script as its response permits (context takeover exactly when server_no_context_takeover is absent), frames following the response in the same bytes or one message at a time, and the client Conn must return exactly these messages and echo them on a valid client wire. A negotiation case is non-trivial when the session was set up and every message was delivered and echoed."
+const negotiationRule = " Negotiation x peer behaviour: (raw client) a hand-written client offers each of the Sec-WebSocket-Extensions offers {none, permessage-deflate alone, +client_no_context_takeover, +server_no_context_takeover, both, +client_max_window_bits (no value / =15), +server_max_window_bits=10/15 (token and quoted), two offers in one header, two header lines, unknown parameter, other extension first, other extension only, extra white space and tabs, mixed case, lower-case header name} to Upgrader.Upgrade with EnableCompression on and off x buffer sizes {0 (hijacked buffers), 256} (thorough: also 125, 4096) x all client frames present before the first read / one message at a time; the response must be 101 with the RFC 6455 accept key and an extension list that the independent RFC 7692 model accepts for that offer (only offered extensions, one permessage-deflate element, defined parameters once with valid values, client_max_window_bits only when offered); the client then sends every script of depth 1..3 (thorough: 1..4) over {compressed 75 B, compressed 5000 B, compressed 600 B in 3 fragments, uncompressed 75 B, compressed empty} (thorough: also compressed 40000 B) with one shared body so that later messages back-reference earlier ones, compressing WITH context takeover exactly when the response lacks client_no_context_takeover (flate level -1; thorough also 1 and 9 at buffer size 256), and the server Conn must return exactly these (type, payload) and echo them on a wire that parses and inflates under the server's negotiated context mode. (raw server) a hand-written server answers Dialer.Dial (EnableCompression off: no extension; on: {no extension, both parameters in both orders, without spaces, with extra spaces/tabs, lower-case header name, +server_max_window_bits=15, only server_no_context_takeover, only client_no_context_takeover, no parameter}); the Dialer's request must be a valid RFC 6455 handshake whose offer is valid under RFC 7692; Dial must accept the first six forms; wherever Dial accepts, the server sends every script as its response permits (context takeover exactly when server_no_context_takeover is absent), frames following the response in the same bytes or one message at a time, and the client Conn must return exactly these messages and echo them on a valid client wire. A negotiation case is non-trivial when the session was set up and every message was delivered and echoed."
 
 var negotiationAssumptions = []string{
 	"the hand-written peer inflates with a full 32 KiB window whatever window size it asked for (an offer with server_max_window_bits that the library accepts without honouring it is not judged)",
@@ -808,6 +808,9 @@ func negotiationFamilies(c *hl.Ctx) {
 	for _, level := range negLevels(c.Thorough()) {
 		for _, buf := range negBufs(c.Thorough()) {
 			for _, pre := range []bool{false, true} {
+				if level != -1 && (buf != 256 || pre) {
+					continue // the peer's other flate levels: one buffer size, one message at a time
+				}
 				for _, enable := range []bool{true, false} {
 					for _, o := range negOffers {
 						if !run(NegCase{Part: "raw-client", ID: o.ID, Lines: o.Lines, Lower: o.Lower, Enable: enable, Buf: buf, Preload: pre, Level: level}) {
